@@ -78,7 +78,7 @@ func C13Dry(r *simkit.Run) {
 	r.Nontrivial()
 	r.Fired("dry-run")
 	r.Probe("dry-run:" + state + ":" + opt)
-	r.Logf("state=%s g=%s dir=%s cmd=%s -> %s same=%v revs=[%s]", state, g, Describe(files), strings.Join(args[2:], " "), res.Class(), same, after.RevDigest())
+	r.Logf("state=%s g=%s dir=%s cmd=%s -> %s same=%v revs=[%s]", state, g, Describe(files), strings.Join(trimURLs(args[2:]), " "), res.Class(), same, after.RevDigest())
 	r.Sample("database %s (%d of %d files applied), dir %s", state, applied, len(files), Describe(files))
 	r.Sample("`atlas %s` -> %s (%s); unchanged=%v; revisions before [%s] after [%s]", strings.Join(trimURLs(args), " "), res.Class(), res.ErrLine(), same, before.RevDigest(), after.RevDigest())
 	if res.Panicked {
